@@ -214,6 +214,10 @@ func monitor(c fw.Case, out []string) []string {
 			break
 		}
 		toks := strings.Fields(ln)
+		if toks[0] == "value.e2em" {
+			fails = append(fails, monitorMulti(i, ln, out[i])...)
+			continue
+		}
 		var g gval
 		var o mopts
 		var ok1, ok2 bool
@@ -296,6 +300,81 @@ func monitor(c fw.Case, out []string) []string {
 	return fails
 }
 
+// monitorMulti: one Set of several leaves; every value one Get returns is the value set at that
+// leaf, in PROTO encoding, in the JSON document of the container, in the documents of a Get that
+// names every leaf, and in the document the plugin validated.  Messages are `<rule>@<line>#<leaf>`.
+func monitorMulti(i int, line, ans string) []string {
+	items, ok := decMulti(line)
+	if !ok {
+		return nil
+	}
+	for _, it := range items {
+		if ans == "panic" && wireDecodable(it.g) && !inDomain(it.g) {
+			return []string{fmt.Sprintf("panic@%d#0: a Set panics on values a gNMI request can carry", i)}
+		}
+		if !inDomain(it.g) {
+			return nil
+		}
+	}
+	var fails []string
+	if !strings.HasPrefix(ans, "ok ") {
+		k := 0
+		for j, it := range items { // point at the member a known finding is about, if any
+			if it.g.ll && len(it.g.es) > 0 && it.g.es[0].k == kFloat {
+				k = j
+			}
+		}
+		return []string{fmt.Sprintf("roundtrip@%d#%d: a Set of supported values is not accepted end to end: %s", i, k, ans)}
+	}
+	f := e2eFields(ans)
+	proto := strings.Split(f["proto"], ";")
+	if len(proto) != len(items) {
+		return []string{fmt.Sprintf("roundtrip@%d#0: one Get (PROTO) of %d leaves returns %s", i, len(items), f["proto"])}
+	}
+	for k, it := range items {
+		if want := encGVal(canon(it.g)); proto[k] != want {
+			fails = append(fails, fmt.Sprintf("roundtrip@%d#%d: leaf /c/x%d: one Get (PROTO) of all leaves returns %s, the value set is %s", i, k, k, proto[k], want))
+		}
+	}
+	for _, field := range []string{"json", "jsonm", "plugin"} {
+		what := map[string]string{"json": "the document Get (JSON) returns for the container",
+			"jsonm": "the document for this leaf in a Get (JSON_IETF) naming every leaf", "plugin": "the document the model plugin validated"}[field]
+		toks := strings.Split(f[field], ";")
+		if len(toks) != len(items) {
+			fails = append(fails, fmt.Sprintf("json@%d#0: %s: %s", i, what, f[field]))
+			continue
+		}
+		for k, it := range items {
+			if toks[k] == "float" {
+				continue
+			}
+			a := "ok " + toks[k]
+			if !isHex(toks[k]) {
+				a = toks[k]
+			}
+			if m := checkJSON(it.g, it.o, a); m != "" {
+				fails = append(fails, fmt.Sprintf("json@%d#%d: leaf /c/x%d: %s: %s", i, k, k, what, m))
+			}
+		}
+	}
+	return fails
+}
+
+func isHex(s string) bool {
+	if s == "-" {
+		return true
+	}
+	if len(s) == 0 || len(s)%2 != 0 {
+		return false
+	}
+	for _, c := range s {
+		if !(c >= '0' && c <= '9' || c >= 'a' && c <= 'f') {
+			return false
+		}
+	}
+	return true
+}
+
 // ---- signatures of the listed known findings ----
 
 // failing returns the rule and the decoded script line a monitor message is about.
@@ -308,12 +387,24 @@ func failing(c fw.Case, msg string) (rule string, op string, stored bool, g gval
 	if !found {
 		return
 	}
+	leaf := 0
+	if a, b, has := strings.Cut(idx, "#"); has {
+		idx = a
+		leaf, _ = strconv.Atoi(b)
+	}
 	i, err := strconv.Atoi(idx)
 	if err != nil || i < 0 || i >= len(c.Script) {
 		return
 	}
 	toks := strings.Fields(c.Script[i])
 	op = toks[0]
+	if op == "value.e2em" {
+		items, okm := decMulti(c.Script[i])
+		if !okm || leaf < 0 || leaf >= len(items) {
+			return
+		}
+		return rule, "value.e2e", true, items[leaf].g, items[leaf].o, true
+	}
 	var ok1, ok2 bool
 	switch len(toks) {
 	case 3: // value.e2e: the value went through the stores
@@ -416,6 +507,8 @@ var Prop = &fw.Prop{
 		"strings/bytes incl. empty, 0x1D, quotes, control and multi-byte characters; decimals at precision 0-18 (and a bad-precision stream); float32 bit patterns incl. ±0, subnormals, max, ±Inf, NaN; " +
 		"a malformed stream (mixed lists, nil members, unsupported oneof members) and native typed values mutated around the real conversion result; both API versions (v2, v3) on every line; " +
 		"one case in 8 (quick) also sends the value through the real Set handler, transaction/proposal/configuration controllers and stores, records the document the plugin validated and reads it back with Get in PROTO, JSON and JSON_IETF encoding; " +
+		"one case in 12 is ONE Set of 2-6 leaves — mostly groups whose stored Bytes are equal although the values differ (sign, precision, leaf-list member boundaries live in TypeOpts: 5/-5, 1234 p=2/p=4, [1,2]/[258], [ab,c]/[a,bc]) — read back by one Get (PROTO) and one Get (JSON) of the container and one Get (JSON_IETF) naming every leaf, every returned value and document compared with what was set; " +
+		"every BuildTree document is held across two further BuildTree calls before it is read; " +
 		"plus exhaustive enumeration of the extremes × widths, decimals around 0 and ±10^p, and all bytes/string leaf-lists up to 3 members over a universe with empty and 0x1D members. " +
 		"Non-trivial = a boundary value, a width above 32, or a leaf-list with an empty member; distinct = distinct script.",
 	Quick: 3000, Thorough: 120000,
